@@ -112,7 +112,7 @@ def lower_bound_progress(ctx, repo, R, fi, construct):
                "an iteration can return to the loop test without advancing the index", key="inc_all_paths")
 
 
-def lower_of(ctx, repo, fi, cfg, loop, use_node, a):
+def lower_of(ctx, repo, fi, cfg, loop, use_node, a, _depth=0):
     """lower bound of atom expression `a` at the increment."""
     v = repo.fold(fi.mod, a)
     if isinstance(v, int) and not isinstance(v, bool):
@@ -125,6 +125,12 @@ def lower_of(ctx, repo, fi, cfg, loop, use_node, a):
     if isinstance(a, ast.Name):
         defs = [n for n in cfg.nodes.values() if n.kind == "stmt" and isinstance(n.ast, ast.Assign)
                 and any(isinstance(t, ast.Name) and t.id == a.id for t in n.ast.targets)]
+        if defs and all(isinstance(d.ast.value, ast.Name) and d.ast.value.id != a.id for d in defs) and _depth < 3:
+            # `a = b`: a is as large as b is where the copy is made
+            subs = [lower_of(ctx, repo, fi, cfg, loop, d, d.ast.value, _depth + 1) for d in defs]
+            if all(lb_ is not None for lb_, _ in subs):
+                lb_, why_ = min(subs, key=lambda x: x[0])
+                return lb_, f"copy of `{defs[0].ast.value.id}`: {why_}"
         if defs and all(_nonneg_expr(repo, fi, d.ast.value) for d in defs):
             nonneg = True
     else:
@@ -185,10 +191,17 @@ def guard_bound(repo, fi, g, txt):
     if not isinstance(t, ast.Compare) or len(t.ops) != 1:
         return None
     iff = g.extra
-    if not isinstance(iff, ast.If) or not any(isinstance(s, ast.Raise) for s in iff.body) or \
-            not isinstance(iff.body[-1], ast.Raise):
+    if not isinstance(iff, ast.If):
         return None
     l, op, r = t.left, t.ops[0], t.comparators[0]
+    raises_true = bool(iff.body) and isinstance(iff.body[-1], ast.Raise)
+    raises_false = bool(iff.orelse) and isinstance(iff.orelse[-1], ast.Raise)
+    if not raises_true and raises_false and isinstance(op, (ast.Eq, ast.GtE, ast.Gt)):
+        # the test is written the other way round (`if ok: .. else: raise`): the same fact holds where the test is true
+        op = {ast.Eq: ast.NotEq, ast.GtE: ast.Lt, ast.Gt: ast.LtE}[type(op)]()
+        raises_true = True
+    if not raises_true:
+        return None
     if ast.unparse(l) == txt and isinstance(op, (ast.Lt, ast.LtE)):
         c = repo.fold(fi.mod, r)
         if isinstance(c, int):
@@ -383,8 +396,18 @@ def framing_rules(ctx, repo, rule_prefix="R-LOWER/framing"):
         part = [tv for c, tv in p_.conds if isinstance(c, tuple) and c[0] == "cmp" and c[1] == "Lt" and c[3] == L
                 and c[2] == sym.add(LEN, I, -1)]
         hdr_short = [tv for c, tv in p_.conds if isinstance(c, tuple) and c[0] == "cmp" and c[1] == "Lt" and c[2] == sym.add(LEN, I, -1) and c[3] == 20]
+        # a completeness test that measures something else than the bytes remaining after the scan offset
+        wrong = [c for c, tv in p_.conds if isinstance(c, tuple) and c[0] == "cmp" and c[1] in ("Lt", "LtE", "Gt", "GtE") and L in (c[2], c[3])
+                 and (c[2] if c[3] == L else c[3]) != sym.add(LEN, I, -1) and sym.show(LEN) in sym.show(c[2] if c[3] == L else c[3])]
+        if wrong and not part:
+            ctx.violate(rule_prefix + "-partial", construct, f"{m.rel}:{lp.lineno}",
+                        f"the Message Length at the scan offset is compared with `{sym.show(wrong[0][2] if wrong[0][3] == L else wrong[0][3])}`, not with "
+                        f"the bytes remaining after the offset (len - offset): behind a complete message an incomplete one is declared "
+                        f"complete, handed to the decoder truncated and its tail is parsed as a new message", key="partial_measure")
+            continue
         if hdr_short == [True] and not short:
-            ctx.decide(p_.term == "break" and p_.get(idx) == I, rule_prefix + "-partial", construct, f"{m.rel}:{lp.lineno}",
+            ctx.decide((p_.term == "break" and p_.get(idx) == I) or (p_.term == "return" and p_.value == I and rets == [idx]),
+                       rule_prefix + "-partial", construct, f"{m.rel}:{lp.lineno}",
                        "fewer than 20 buffered bytes end the scan with the offset unchanged",
                        f"with fewer than 20 bytes left the iteration ends with `{p_.term}` and offset `{sym.show(p_.get(idx))}`", key="partial_header")
             continue
@@ -399,7 +422,8 @@ def framing_rules(ctx, repo, rule_prefix="R-LOWER/framing"):
                        f"the connection is deaf from then on", key="malformed")
         elif short == [False] and part == [True]:
             n_part += 1
-            ctx.decide(p_.term == "break" and p_.get(idx) == I, rule_prefix + "-partial", construct, f"{m.rel}:{lp.lineno}",
+            ends_unchanged = (p_.term == "break" and p_.get(idx) == I) or (p_.term == "return" and p_.value == I and rets == [idx])
+            ctx.decide(ends_unchanged, rule_prefix + "-partial", construct, f"{m.rel}:{lp.lineno}",
                        "an incomplete message ends the scan with the offset unchanged",
                        f"an incomplete trailing message ends the iteration with `{p_.term}` and offset `{sym.show(p_.get(idx))}`", key="partial")
         elif short == [False] and part == [False]:
